@@ -161,13 +161,13 @@ def rstr(r):
 def make_env(ses, concrete=None):
     from symplyphysics import Symbol, Function
     if concrete is None:
-        xs = [Symbol(f"x{i}", ses.dim(f"Dx{i}_")) for i in range(2)]
+        xs = [Symbol(f"x{i}", ses.dim(f"Dx{i}_"), real=True) for i in range(2)]
         f = Function("f", [xs[0]], ses.dim("Df_"))
         qs = [make_quantity(ses.scalar(f"s{i}_"), ses.dim(f"Dq{i}_")) for i in range(2)]
         n = ses.scalar("n")
     else:
         from symplyphysics import Quantity
-        xs = [Symbol(f"x{i}", concrete["mkdim"](concrete["Dx"][i])) for i in range(2)]
+        xs = [Symbol(f"x{i}", concrete["mkdim"](concrete["Dx"][i]), real=True) for i in range(2)]
         f = Function("f", [xs[0]], concrete["mkdim"](concrete["Df"]))
         qs = [Quantity(sp.Rational(concrete["s"][i]), dimension=concrete["mkdim"](concrete["Dq"][i])) for i in range(2)]
         n = sp.Rational(concrete["n"])
